@@ -101,7 +101,21 @@ def _normalise(e):
 FM_LIMIT = 600
 
 
+_cache = {}
+
+
 def feasible(cons):
+    key = frozenset(cons)
+    r = _cache.get(key)
+    if r is None:
+        r = _feasible(key)
+        if len(_cache) > 200000:
+            _cache.clear()
+        _cache[key] = r
+    return r
+
+
+def _feasible(cons):
     """Is the conjunction of (e >= 0 for e in cons) satisfiable over the integers?  Exact 'no' answers only:
     returns False only when the rational relaxation (with gcd tightening) is infeasible."""
     cur = set()
